@@ -129,6 +129,66 @@ Theorem C03_second_hello_refused :
 Proof. exact second_hello_refused. Qed.
 Print Assumptions C03_second_hello_refused.
 
+(* ---------------- the registry side: RequestName / ReleaseName / lookups on ':' names ----------------- *)
+(* In every reachable state each registry entry for a name beginning with ':' has exactly one owner and no
+   queue, and that owner is the connection Hello gave the name to: no other step (in particular no
+   RequestName with any flags, on a live, departed, never minted or one's own name) makes a connection an
+   owner or queued owner of a ':' name. *)
+Theorem C03_registry_only_hello :
+  forall max_completed machine_id send_allowed driver reads_args on_disconnect activatable granted,
+    (forall b c m, Forall dmsg_wf (driver b c m)) ->
+    (forall b c, Forall dmsg_wf (on_disconnect b c)) ->
+    forall h, Forall event_ok h ->
+    forall n q, In (n, q) (b_reg (final_bus max_completed machine_id send_allowed driver reads_args on_disconnect activatable granted h)) ->
+    exists c, q = [c] /\
+      view (trace_of max_completed machine_id send_allowed driver reads_args on_disconnect activatable granted h) c = CNamed n.
+Proof. exact registry_only_hello. Qed.
+Print Assumptions C03_registry_only_hello.
+
+(* a ':' name resolves (bus_registry_lookup + primary owner: GetNameOwner, routing) only to the connection
+   that holds it by Hello *)
+Theorem C03_resolve_sound :
+  forall max_completed machine_id send_allowed driver reads_args on_disconnect activatable granted,
+    (forall b c m, Forall dmsg_wf (driver b c m)) ->
+    (forall b c, Forall dmsg_wf (on_disconnect b c)) ->
+    forall h d r, Forall event_ok h ->
+    resolve (final_bus max_completed machine_id send_allowed driver reads_args on_disconnect activatable granted h) d = Some r ->
+    view (trace_of max_completed machine_id send_allowed driver reads_args on_disconnect activatable granted h) r = CNamed d.
+Proof. exact (fun mc mi sa dr ra od ac gr H1 H2 h d r => resolve_sound mc mi sa dr ra od ac gr H1 H2 h d r). Qed.
+Print Assumptions C03_resolve_sound.
+
+(* the name of a connection that has gone away is nobody's in EVERY later state (h is any history in which
+   the connection has left): no connection is named so, and the registry resolves it to nobody *)
+Theorem C03_departed_never_again :
+  forall max_completed machine_id send_allowed driver reads_args on_disconnect activatable granted,
+    (forall b c m, Forall dmsg_wf (driver b c m)) ->
+    (forall b c, Forall dmsg_wf (on_disconnect b c)) ->
+    forall h n, Forall event_ok h ->
+    let tr := trace_of max_completed machine_id send_allowed driver reads_args on_disconnect activatable granted h in
+    In n (departed tr) ->
+    In n (issued tr) /\ (forall r, view tr r <> CNamed n) /\
+    resolve (final_bus max_completed machine_id send_allowed driver reads_args on_disconnect activatable granted h) n = None.
+Proof. exact (fun mc mi sa dr ra od ac gr H1 H2 h n => departed_never_again mc mi sa dr ra od ac gr H1 H2 h n). Qed.
+Print Assumptions C03_departed_never_again.
+
+(* RequestName (any flags) / ReleaseName of any name beginning with ':' is refused with an error and changes
+   nothing, in any state *)
+Theorem C03_colon_request_refused :
+  forall max_completed machine_id send_allowed driver reads_args on_disconnect activatable granted b c n m x,
+    lookup c (b_conns b) = Some (Some n) ->
+    str_field m F_DESTINATION = Some drv_name ->
+    send_allowed b c (stamp n m) = true ->
+    colon_request_of (stamp n m) = Some x ->
+    step max_completed machine_id send_allowed driver reads_args on_disconnect activatable granted b (ESend c m) =
+    Ok b [TRecv c m;
+          TEmit (OClient c) SMonitors (if reads_args b c (stamp n m) then to_native (stamp n m) else stamp n m);
+          error_reply b c (stamp n m) err_args].
+Proof. exact colon_request_refused. Qed.
+Print Assumptions C03_colon_request_refused.
+
+(* (the addressed recipient of a message to ':x.y' is part of C03_sender_partial: Spec.StampSpec.addr_ok --
+   only the connection named ':x.y', and "nobody" only if no connection is named so) *)
+
 (* ---------------- messages kept while a service is started (activation hold-and-release) ------------ *)
 (* bus_activation_send_pending_auto_activation_messages / try_send_activation_failure: whatever comes out
    for client origin is a kept message whose writer is still connected under the name recorded when it was
@@ -208,7 +268,7 @@ Proof. exact demo_names. Qed.
 (* a signal with SENDER org.freedesktop.DBus forged in first position, unknown field 200 and
    CONTAINER_INSTANCE arrives with sender :1.1 and without the two foreign fields *)
 Example C03_ex_forwarded :
-  In (TEmit (OClient 1) (SRouted 1)
+  In (TEmit (OClient 1) (SRouted 1 (ATo 0))
         (mkSMsg true 4 0 7
            [mkSField 7 (TBasic 115) (VStr 115 name1);
             mkSField 1 (TBasic 111) (VStr 111 [47;120]); mkSField 2 (TBasic 115) (VStr 115 [116;46;73]);
@@ -245,3 +305,12 @@ Example C03_ex_relay_bytes :
   wf_msg forged_msg = true /\ name_ok name1 = true /\ stamp_fits name1 forged_msg = true /\
   relay_bytes name1 (spec_encode_message forged_msg) = Some (spec_encode_message (stamp name1 forged_msg)).
 Proof. vm_compute. repeat split; reflexivity. Qed.
+
+(* client 1 asks for client 0's live name, its own, a never minted one, tries to release 0's name: all refused;
+   a message to :1.0 is addressed to client 0; after 0 has left, asking again is refused and a message to
+   :1.0 is addressed to nobody *)
+Example C03_ex_no_squatting :
+  refusals_of (env_run squat_hist) = map (fun k => Some (VNum 117 k)) [2; 3; 4; 5; 7] /\
+  addressed_of (env_run squat_hist) = [(6, ATo 0); (8, ANobody)] /\
+  departed (env_run squat_hist) = [name0].
+Proof. exact squat_refused. Qed.
